@@ -62,7 +62,9 @@ func checkConnectionIdentity(proxy *model.Proxy, identities []string) (*spiffe.I
 		if err != nil {
 			continue
 		}
-		if proxy.ConfigNamespace != "" && spiffeID.Namespace != proxy.ConfigNamespace {
+		// A proxy that claims no namespace is not exempt: the credential must prove the namespace the
+		// proxy is served as, including the empty one.
+		if spiffeID.Namespace != proxy.ConfigNamespace {
 			continue
 		}
 		if proxy.Metadata.ServiceAccount != "" && spiffeID.ServiceAccount != proxy.Metadata.ServiceAccount {
